@@ -63,4 +63,125 @@ pub fn run(rep: &mut Report, tier: &str, seed: u64) {
                 }
             }
         });
+    location_stream(rep, &mut runner, tier, seed);
+}
+
+/// The location half of the property, with the expected positions computed FROM THE DSL TEXT (not from the parsed AST):
+/// `node` and `edge` statements that follow ASCII and non-ASCII text on their line; the location attribute must be the
+/// 1-based line and CHARACTER column of the variable (node) / of the statement (edge) in the text.
+fn location_stream(rep: &mut Report, runner: &mut Runner, tier: &str, seed: u64) {
+    use crate::gen::dsl::Program;
+    use crate::props::common::{gen_source, load, Loaded};
+    let n = if tier == "thorough" { 500 } else { 50 };
+    let root = crate::rng::Rng::new(seed ^ 0x10ca7e);
+    let texts = ["", "x", "abc", "é", "héllo wörld", "日本語", "€uro", "𝔘𝔫𝔦", "a𝔘b", "ü", "\u{a0}"];
+    for i in 0..n {
+        let mut r = root.fork(i as u64);
+        let mut text = String::from("(module) @_m {\n");
+        // (variable name, line, column) of every `node` statement; (line, column) of every `edge` statement
+        let mut nodes: Vec<(String, usize, usize)> = Vec::new();
+        let mut edges: Vec<(usize, usize, String, String)> = Vec::new();
+        let mut line_no = 2usize;
+        let mut k = 0usize;
+        let lines = r.range(1, 4);
+        for _ in 0..lines {
+            let mut line = String::new();
+            line.push_str(*r.pick(&["  ", "    ", "\t", " "]));
+            let stmts = r.range(1, 2);
+            for _ in 0..stmts {
+                if r.chance(2, 3) {
+                    k += 1;
+                    line.push_str(&format!("let zp{} = \"{}\" ", k, r.pick(&texts)));
+                }
+                if nodes.len() >= 1 && r.chance(1, 3) {
+                    let a = r.pick(&nodes).0.clone();
+                    let b = r.pick(&nodes).0.clone();
+                    let col = line.chars().count() + 1;
+                    line.push_str(&format!("edge {} -> {} ", a, b));
+                    if !edges.iter().any(|e| e.2 == a && e.3 == b) {
+                        edges.push((line_no, col, a, b));
+                    }
+                } else {
+                    k += 1;
+                    let name = format!("n{}", k);
+                    line.push_str("node ");
+                    let col = line.chars().count() + 1;
+                    line.push_str(&format!("{} ", name));
+                    nodes.push((name, line_no, col));
+                }
+            }
+            text.push_str(line.trim_end());
+            text.push('\n');
+            line_no += 1;
+        }
+        text.push_str("}\n");
+        let file = match load(&text) {
+            Ok(Ok(f)) => f,
+            other => {
+                rep.fail("direct", "C15 location program rejected", true, json!({"tsg": text, "result": format!("{:?}", other.map(|x| x.map(|_| "file")))}));
+                continue;
+            }
+        };
+        let source = gen_source(&mut r, true, false);
+        let info = crate::tree::TreeInfo::new(&source.tree);
+        let loaded = Loaded { program: Program { text: text.clone(), header: String::new(), stanzas: vec![text.clone()], globals: vec![], stanza_count: 1, has_fault: false, features: vec![], static_fault: None }, file };
+        let mi = crate::execx::model_input(&loaded.file, &source.tree, &source.src, &info);
+        runner.set_tree(&info, &source.src);
+        runner.table = crate::oracle::OracleTable::new();
+        let case = Case { tsg: &text, loaded: &loaded, source: &source, info: &info, mi: &mi };
+        rep.case(&format!("{}\u{0}{}", text, source.src), true);
+        for lazy in [false, true] {
+            let mode = if lazy { "lazy" } else { "strict" };
+            let res = runner.check_mode(rep, &case, &RunCfg { lazy, globals: vec![], outer_globals: vec![], debug: Some((DBG.0.into(), DBG.1.into(), DBG.2.into())), cancel_at: None }, true, false);
+            rep.count(&format!("location-stream:{}:{}", mode, res.class));
+            if res.class != "ok" {
+                continue;
+            }
+            let g = res.run.graph.as_ref().unwrap();
+            let gl = g.as_list().unwrap();
+            let attr = |attrs: &Sexp, key: &str| -> Option<String> {
+                attrs.as_list().unwrap().iter().find(|kv| kv.as_list().unwrap()[0].as_str() == Some(key)).map(|kv| kv.as_list().unwrap()[1].pretty())
+            };
+            let mut var_of_node: Vec<Option<String>> = Vec::new();
+            for nd in &gl[1..] {
+                let nl = nd.as_list().unwrap();
+                let var = attr(&nl[0], DBG.1);
+                let loc = attr(&nl[0], DBG.0);
+                var_of_node.push(var.clone());
+                let found = nodes.iter().find(|(name, _, _)| var.as_deref() == Some(&format!("(str \"{}\")", name)));
+                match found {
+                    None => rep.fail("direct", &format!("C15 {}: a node's variable attribute names no `node` statement of the program", mode), true,
+                        json!({"tsg": text, "source": source.src, "variable": var, "graph": g.pretty()})),
+                    Some((name, l, c)) => {
+                        let want = format!("(str \"line {} column {}\")", l, c);
+                        if loc.as_deref() != Some(&want) {
+                            rep.fail("direct", &format!("C15 {}: the location attribute of a node is not the 1-based line and character column of its variable in the DSL text", mode), true,
+                                json!({"tsg": text, "source": source.src, "variable": name, "expected": want, "actual": loc}));
+                        } else {
+                            rep.count("location-stream:node-location-checked");
+                        }
+                    }
+                }
+            }
+            // edges: the location of an `edge` statement that created it
+            for (ni, nd) in gl[1..].iter().enumerate() {
+                let nl = nd.as_list().unwrap();
+                for e in nl[1].as_list().unwrap() {
+                    let el = e.as_list().unwrap();
+                    let sink = el[0].pretty().parse::<usize>().unwrap_or(usize::MAX);
+                    let loc = attr(&el[1], DBG.0);
+                    let (a, b) = (var_of_node.get(ni).cloned().flatten(), var_of_node.get(sink).cloned().flatten());
+                    let unq = |s: Option<String>| s.map(|x| x.trim_start_matches("(str \"").trim_end_matches("\")").to_string());
+                    let (a, b) = (unq(a), unq(b));
+                    let wants: Vec<String> = edges.iter().filter(|e| Some(&e.2) == a.as_ref() && Some(&e.3) == b.as_ref()).map(|e| format!("(str \"line {} column {}\")", e.0, e.1)).collect();
+                    if wants.is_empty() || !wants.iter().any(|w| Some(w) == loc.as_ref()) {
+                        rep.fail("direct", &format!("C15 {}: the location attribute of an edge is not the position of an `edge` statement that created it", mode), true,
+                            json!({"tsg": text, "source": source.src, "from": a, "to": b, "expected_one_of": wants, "actual": loc}));
+                    } else {
+                        rep.count("location-stream:edge-location-checked");
+                    }
+                }
+            }
+        }
+    }
 }
